@@ -31,8 +31,7 @@ something, defaults, values the caller still holds and relations between two qua
 pinned suite, and are detected by the quick tier of a check on every run:
 `tools/mutation_audit.sh` (scratch worktrees only, nothing is applied to `/repo`, evidence of
 the real tree is not touched; `vp run -- sh -c 'tools/mutation_audit.sh -j 2'` runs it from a
-snapshot) reports `{n} detected, 0 not detected` (last full run over the 120 of rounds 1-6 on the tree
-with the mutant-sweep strengthenings; the ten of round 7 were run on their own after their strengthenings). They are deterministic enumerations; the
+snapshot) reports `{n} detected, 0 not detected` (last full run: the final tree, all seven rounds). They are deterministic enumerations; the
 exceptions are C07-r2, a pure data race without any value-level effect, which only the
 free-running `-race` pass of C07 can see. "Missed at first" means the check as it stood when
 the change arrived exited 0; the strengthening is described and is now part of the check.
